@@ -2,6 +2,7 @@ SPECIFICATION Spec
 CONSTANTS
   Universe <- UniverseDef
   Registers <- RegistersDef
+  Late <- LateDef
   Platforms <- PlatformsDef
   LibClosure <- LibClosureObserved
   Needs <- NeedsDef
